@@ -156,6 +156,10 @@ fn ser_named_type(ty: &OwnedDataModelType, value: &Value, out: &mut Vec<u8>) -> 
         }
         OwnedDataModelType::F32 => {
             let val = value.as_f64().right()?;
+            // a finite f64 beyond the f32 range would silently become infinite
+            if val.is_finite() && !(val as f32).is_finite() {
+                return Err(Error::SchemaMismatch);
+            }
             let val = val as f32; // todo
             let val = val.to_le_bytes();
             out.extend_from_slice(&val);
